@@ -330,3 +330,154 @@ def conversion_lengths(crate):
         msgs = [m for v, m in verdicts if v == worst]
         res.append((b, key, worst, "; ".join(dict.fromkeys(msgs)) if worst != "pass" else "every path ends with the source's length (%d paths)" % len(verdicts)))
     return res
+
+
+# ------------------------------------------------------------------------------------------------------------------
+# split_off / split (trait defaults): lengths of the two halves on every path
+# ------------------------------------------------------------------------------------------------------------------
+LEN0 = ("param", "len0")
+
+
+def _subst_len0(e, selfp):
+    if not isinstance(e, tuple) or not e:
+        return e
+    if is_call(e, "len") and len(e[3]) == 1 and _strip_refs(e[3][0]) == selfp:
+        return LEN0
+    return tuple(_subst_len0(y, selfp) if isinstance(y, tuple) else y for y in e)
+
+
+def split_lengths(crate):
+    """BitVector::split_off(index) must leave `index` bits in self and return `len - index` bits; split(index) must return
+    (high, low) with those lengths. Each acyclic path is interpreted over symbolic lengths (copy_range, resize, truncate,
+    mem::replace, zeros, split_off) and compared with the expectation under the path's branch conditions and the
+    precondition index <= len: linear equality proves a path, a small model refutes it, anything else is undecided."""
+    res = []
+    for b in crate.bodies:
+        if b.trait_default_of != "BitVector" or b.name not in ("split_off", "split") or b.kind == "Closure":
+            continue
+        key = "%s|LENFLOW halves" % b.key
+        selfp = ("param", b.local_name(1))
+        index = ("param", b.local_name(2))
+        if b.loops():
+            res.append((b, key, "undecided", "contains a loop: lengths not interpreted"))
+            continue
+        verdicts = []
+        for path in _paths(b, 0):
+            edges = set(zip(path, path[1:]))
+            rels = [("Le", index, LEN0)]
+            for sb, cond, ts, fs in guard.cond_edges(b):
+                if ts == fs:
+                    continue
+                if (sb, ts) in edges:
+                    rels += [(op, _subst_len0(l, selfp), _subst_len0(r, selfp)) for op, l, r in guard.relations_on_edge(cond, True)[:1]]
+                elif (sb, fs) in edges:
+                    rels += [(op, _subst_len0(l, selfp), _subst_len0(r, selfp)) for op, l, r in guard.relations_on_edge(cond, False)[:1]]
+            for sb, arms in guard.discr_edges(b):
+                for s2, rel in arms:
+                    if (sb, s2) in edges:
+                        rels += [(op, _subst_len0(l, selfp), _subst_len0(r, selfp)) for op, l, r in guard.relations_on_edge(rel, True)[:1]]
+            Ls = LEN0
+            env = {}            # local id -> symbolic length of the vector it holds
+            mutated = False
+            unknown = None
+            ret_high = ret_low = None
+
+            def vec_len(o):
+                if o["k"] in ("copy", "move") and not o["p"]["pr"]:
+                    l = o["p"]["l"]
+                    if l in env:
+                        return env[l]
+                    if b.is_param(l) and b.local_name(l) == selfp[1]:
+                        return Ls
+                return None
+
+            for blk in path:
+                for st in b.blocks[blk]["st"]:
+                    if st["s"] != "assign" or st["p"]["pr"]:
+                        continue
+                    r = st["r"]
+                    dl = st["p"]["l"]
+                    if r["k"] == "use":
+                        v = vec_len(r["o"])
+                        if v is not None:
+                            env[dl] = v
+                    elif r["k"] == "agg" and r.get("ak") == "tuple" and dl == 0 and len(r["fs"]) == 2:
+                        ret_high, ret_low = vec_len(r["fs"][0]), vec_len(r["fs"][1])
+                t = b.term(blk)
+                if t["t"] != "call" or t["f"]["k"] != "const" or "fn" not in t["f"]:
+                    continue
+                fn = t["f"]["fn"]
+                name = fn["name"]
+                args = [_subst_len0(b.e_operand(a), selfp) for a in t["args"]]
+                dl = t["d"]["l"] if not t["d"]["pr"] else None
+                on_self = bool(args) and _strip_refs(args[0]) == selfp
+                if name == "len":
+                    if on_self and mutated:
+                        unknown = "len() read after self was edited"
+                    continue
+                if name == "copy_range" and on_self and len(args) == 2 and args[1][0] == "agg" and args[1][1] == "Range":
+                    a0, b0 = args[1][3]
+                    if dl is not None:
+                        env[dl] = ("call", "saturating_sub", None, (b0, a0), ())
+                elif name == "resize" and on_self and len(args) >= 2:
+                    Ls, mutated = args[1], True
+                elif name == "truncate" and on_self and len(args) == 2:
+                    Ls, mutated = ("call", "min", None, (Ls, args[1]), ()), True
+                elif name == "split_off" and on_self and len(args) == 2:
+                    if dl is not None:
+                        env[dl] = ("call", "saturating_sub", None, (Ls, args[1]), ())
+                    Ls, mutated = ("call", "min", None, (Ls, args[1]), ()), True
+                elif name in ("zeros", "ones") and len(args) == 1:
+                    if dl is not None:
+                        env[dl] = args[0]
+                elif name == "with_capacity":
+                    if dl is not None:
+                        env[dl] = ("int", 0)
+                elif name == "clone" and on_self:
+                    if dl is not None:
+                        env[dl] = Ls
+                elif name == "replace" and len(t["args"]) == 2 and on_self:
+                    v = vec_len(t["args"][1])
+                    if v is None:
+                        unknown = "mem::replace with a value of unknown length"
+                    else:
+                        if dl is not None:
+                            env[dl] = Ls
+                        Ls, mutated = v, True
+                elif on_self and b.local_ty(t["args"][0]["p"]["l"]).lstrip().startswith("&") and " mut " in b.local_ty(t["args"][0]["p"]["l"])[:24] \
+                        and name not in ("get", "is_empty", "capacity", "iter", "first", "last"):
+                    unknown = "%s() edits self in a way this rule does not model" % name
+                elif name in ("take",) and on_self:
+                    unknown = "mem::take"
+            if b.name == "split_off":
+                ret_high, ret_low = env.get(0), Ls
+            if unknown or ret_high is None or ret_low is None:
+                verdicts.append(("undecided", unknown or "the returned value's length is not tracked on this path"))
+                continue
+            want_high, want_low = ("bin", "Sub", LEN0, index), index
+            worst = "pass"
+            for what, got, want in (("high part", ret_high, want_high), ("low part", ret_low, want_low)):
+                got = canon(crate, got)
+                if mir.lin_eq(got, want):
+                    continue
+                cm = counter_model(got, want, rels)
+                ctxt = " and ".join("%s %s %s" % (show(l)[:24], mir.SYM.get(op, op), show(r)[:24]) for op, l, r in rels[1:]) or "no condition"
+                if cm is None:
+                    # no counter-example in the domain: equal for all searched values (min/saturating forms)
+                    continue
+                if cm == "too-many":
+                    worst = "undecided" if worst == "pass" else worst
+                    verdicts.append(("undecided", "on the path under [%s] the %s has length `%s`: not decided" % (ctxt, what, show(got)[:60])))
+                    continue
+                env2, g, w = cm
+                worst = "violation"
+                verdicts.append(("violation", "on the path under [%s] the %s has %s bits where %s are expected, e.g. with %s it has %d instead of %d"
+                                 % (ctxt, what, show(got)[:50].replace("len0", "len"), show(want)[:30].replace("len0", "len"),
+                                    ", ".join("%s = %d" % (show(k)[:16].replace("len0", "len"), v) for k, v in env2.items()), g, w)))
+            if worst == "pass":
+                verdicts.append(("pass", ""))
+        worst = "violation" if any(v == "violation" for v, _ in verdicts) else "undecided" if any(v == "undecided" for v, _ in verdicts) else "pass"
+        msgs = [m for v, m in verdicts if v == worst and m]
+        res.append((b, key, worst, "; ".join(dict.fromkeys(msgs)) if worst != "pass" else
+                    "on each of %d paths: the returned high part has len - index bits and self keeps index bits" % len(verdicts)))
+    return res
